@@ -181,6 +181,12 @@ static bool exec_lock_photon(const std::string& prim, int ex, vt::Rng& r) {
                     vt::Ev("Inv").i("t", w->id).s("op", "try_lock");
                     int ret = L->try_lock();
                     if (ret == -2) { vt::Ev("Resp").i("t", w->id).s("op", "try_lock").i("r", -1).i("en", 0).b("skip", true); continue; }
+                    // spinning acquirer (half of the failed attempts): keep trying, for at most 20 ms; the call recorded is the
+                    // last attempt (the earlier failed ones are failed try_locks, which change nothing)
+                    if (ret != 0 && !held && rr.coin(50)) {
+                        uint64_t t0 = photon::__update_now(); int n = 0;
+                        while ((ret = L->try_lock()) != 0 && n < 2000 && photon::__update_now() - t0 < 20000) if ((++n & 7) == 0) thread_yield();
+                    }
                     vt::Ev("Resp").i("t", w->id).s("op", "try_lock").i("r", ret).i("en", 0);
                     if (ret == 0) held++;
                 }
@@ -900,6 +906,8 @@ struct Conductor {
         int id = c->w.id; bool spin = kind == "cvspin";
         auto lk = [&] { if (spin) spl->lock(); else cvm->lock(); vt::Ev("Acq").i("t", id); };
         auto ul = [&] { vt::Ev("Rel").i("t", id); if (spin) spl->unlock(); else cvm->unlock(); };
+        if (op[0] == 'H') { lk(); c->held = 1; return; }                   // take the user lock and keep it across steps (mutex flavour only)
+        if (op[0] == 'R' || op[0] == 'U') { c->held = 0; ul(); return; }
         if (op[0] == 'C') {
             int kind_ = op[1] == '1' ? TO_SHORT : TO_INF;
             lk();
@@ -976,7 +984,12 @@ struct Conductor {
             } else if (kind == "sem") {
                 for (const char* o : {"W11", "W12", "W21", "W22", "S1", "S2"}) v.push_back(t + o);
             } else {
-                for (const char* o : {"C1", "C2", "N1", "N1l", "NA", "NAl"}) v.push_back(t + o);
+                // H / R: a worker keeps the user lock across steps, so that a waiter that is notified, times out or is
+                // interrupted meanwhile has to queue for the lock (cv with a mutex only: a photon thread must not keep a spinlock)
+                bool someone = false; for (auto& o : ws) if (o->held) someone = true;
+                if (c->held) { for (const char* o : {"R", "R", "N1", "NA"}) v.push_back(t + o); }
+                else if (someone) { for (const char* o : {"N1", "NA"}) v.push_back(t + o); }
+                else { for (const char* o : {"C1", "C2", "N1", "N1l", "NA", "NAl"}) v.push_back(t + o); if (kind == "cv") v.push_back(t + "H"); }
             }
         }
         (void)timed_pending;
@@ -1094,7 +1107,7 @@ int main(int argc, char** argv) {
     g_t0 = photon::__update_now();
     vtp::t0() = g_t0;
     vtp::reg().set(photon::CURRENT, 100);
-    vtp::Perturb::seed() = g_seed; vtp::Perturb::level() = vt::flag(argc, argv, "--perturb") ? 1 : 0;
+    vtp::Perturb::seed() = g_seed; vtp::Perturb::level() = vt::flag(argc, argv, "--perturb2") ? 2 : vt::flag(argc, argv, "--perturb") ? 1 : 0;
     vtp::install_hooks(vt::flag(argc, argv, "--hooks"), vt::flag(argc, argv, "--heap"));
     g_vc.start(g_vcpus);
     vtp::Watchdog wd; wd.start(20, prim.c_str());
